@@ -26,6 +26,9 @@ TParse == Ev.e = "Parse" /\ Parse(CompOf(Ev), Ev.text, Ev.rc, Ev) /\ devd' = FAL
 TBuild == /\ Ev.e = "Build"
           /\ Chk(WEq(PortW([port |-> Ev.port]), Ev.portw))          \* adapter obligation: digits -> uint32_t
           /\ Build(OptsOf(Ev), Ev.rc, Ev) /\ devd' = FALSE
+TBuildFree == /\ Ev.e = "BuildFree"
+              /\ Chk(WEq(PortW([port |-> Ev.port]), Ev.portw))
+              /\ BuildFree(OptsOf(Ev), Ev.rc, Ev) /\ devd' = TRUE
 TQuery == Ev.e = "Query" /\ ~devd /\ Query(ItemsOf(Ev), Ev.tot, Ev.it, Ev.more = 1, Ev.rc, Ev.ls) /\ UNCHANGED devd
 TEnc == Ev.e = "Enc" /\ EncCall(Ev.kind = "path", Ev.inp, Ev.pre, Ev.rc, Ev.out) /\ UNCHANGED devd
 TDec == Ev.e = "Dec" /\ DecCall(Ev.src = "last", Ev.inp, Ev.pre, Ev.rc, Ev.out) /\ UNCHANGED devd
@@ -51,7 +54,7 @@ Dev_SlashInQuery ==
 Dev_QueryAfter == Ev.e = "Query" /\ devd /\ UNCHANGED <<uri, enc, devd>>
 
 TNext == /\ l <= TraceLen /\ l' = l + 1
-         /\ \/ TReset \/ TParse \/ TBuild \/ TQuery \/ TEnc \/ TDec \/ TEnd \/ Dev_SlashInQuery \/ Dev_QueryAfter
+         /\ \/ TReset \/ TParse \/ TBuild \/ TBuildFree \/ TQuery \/ TEnc \/ TDec \/ TEnd \/ Dev_SlashInQuery \/ Dev_QueryAfter
 TInit == l = 1 /\ UInit /\ devd = FALSE
 TSpec == TInit /\ [][TNext]_<<l, uri, enc, devd>>
 =============================================================================
